@@ -313,6 +313,28 @@ func clientGoroutineBlockedInside(dump string) string {
 	return ""
 }
 
+// serverGoroutineIdle says whether the goroutine that relays server data is parked
+// waiting for network input (it has consumed everything the server sent).
+func serverGoroutineIdle(dump string) bool {
+	i := strings.LastIndex(dump, "SIGQUIT")
+	if i >= 0 {
+		dump = dump[i:]
+	}
+	for _, g := range strings.Split(dump, "\n\n") {
+		if !strings.Contains(g, "handleServerMessages") {
+			continue
+		}
+		hdr := g
+		if j := strings.IndexByte(g, '\n'); j >= 0 {
+			hdr = g[:j]
+		}
+		if strings.Contains(hdr, "IO wait") {
+			return true
+		}
+	}
+	return false
+}
+
 func (p *proxyProc) report() (string, error) {
 	cl := http.Client{Timeout: 20 * time.Second}
 	resp, err := cl.Get(fmt.Sprintf("http://127.0.0.1:%d/status/report", p.ctlPort))
@@ -477,6 +499,15 @@ func execC19Session(c *child.Ctx, k proxyCase, cj []byte) {
 		if !bytes.Equal(clGot, serverBytes) {
 			if !p.alive() {
 				c.Violate("proxy-died", "the proxy process ended during the session: "+p.stderrTail(), cj)
+			} else if len(clGot) < len(serverBytes) && bytes.Equal(clGot, serverBytes[:len(clGot)]) {
+				// the server has sent everything and the client has waited 20 s: where are the bytes?
+				p.cmd.Process.Signal(syscall.SIGQUIT)
+				<-p.exited
+				if serverGoroutineIdle(p.fullStderr()) {
+					c.Violate("relay-withheld", fmt.Sprintf("the server sent %d bytes, the client received only %d; the proxy's server-side goroutine is waiting for more input, so the missing bytes are held back inside the proxy (last server chunk sizes: total %d)", len(serverBytes), len(clGot), len(serverBytes)), cj)
+				} else {
+					c.Inconclusive("server-to-client relay incomplete after 20 s without a logical explanation")
+				}
 			} else {
 				c.Violate("relay-altered", fmt.Sprintf("the client received %d bytes, the server sent %d: %s", len(clGot), len(serverBytes), firstDiff(clGot, serverBytes)), cj)
 			}
@@ -784,8 +815,23 @@ func monC19(c *child.Ctx, replay json.RawMessage) {
 			size = 3000
 		}
 		for j := 0; j < nconn; j++ {
-			k.Conns = append(k.Conns, hexs(proxyStream(r, r.Range(size/4, size))))
-			k.Server = append(k.Server, hexs(proxyStream(r, r.Range(10, size/2))))
+			cs := proxyStream(r, r.Range(size/4, size))
+			ss := proxyStream(r, r.Range(10, size/2))
+			if i%3 == 1 {
+				// streams that end exactly on a multiple of the proxy's 2048-byte read
+				// buffer, written in buffer-sized pieces and then silence
+				for len(ss) < 2048*3 {
+					ss = append(ss, proxyStream(r, 500)...)
+				}
+				for len(cs) < 2048*3 {
+					cs = append(cs, proxyStream(r, 500)...)
+				}
+				ss = ss[:2048*r.Range(1, 3)]
+				cs = cs[:2048*r.Range(1, 3)]
+				k.Chunk, k.GapUs = []int{2048, 4096}[r.Intn(2)], 2000
+			}
+			k.Conns = append(k.Conns, hexs(cs))
+			k.Server = append(k.Server, hexs(ss))
 		}
 		if c.NViolations() > 0 {
 			break // the tree is already known to violate; further sessions only cost time
